@@ -14,6 +14,7 @@
                                                 silk_decoder_control (ip: NLSF interpolation flag, gm: gain pattern 0..4)
         P fs nb pitchQ8 run shape               the real silk_PLC(lost) run times from sPLC.pitchL_Q8 = pitchQ8, then silk_CNG
         F fs nb fs2 nb2                         silk_decoder_set_fs transitions
+        B fs nb li ci ip dl nfr                 crafted bit-stream (real range encoder) through the real silk_decode_frame
    hx_silkdeccore situ          stdin: S id bw ch ms kind fec sw seed warm gap | pat pat ...   (real streams through opus_decode)
    events: new / core / plc / cng / df / setfs / twin */
 #ifdef HAVE_CONFIG_H
@@ -27,12 +28,15 @@
 #include "PLC.h"
 #include "tables.h"
 #include "Inlines.h"
+#include "pitch_est_defines.h"
+#include "tuning_parameters.h"
 
 static struct {
    int in_core, in_plc, in_df, naf, af[4][3];
    const opus_int16 *ob;
    opus_int16 snap[MAX_FRAME_LENGTH + 2 * MAX_SUB_FRAME_LENGTH];
    int ms, mc, shift_seen;
+   int en_on, nen; opus_int32 en[2][4];
    const silk_decoder_state *last_dec; const opus_int16 *last_out;
 } rec;
 
@@ -41,6 +45,7 @@ void __real_silk_LPC_analysis_filter(opus_int16 *out, const opus_int16 *in, cons
 void __real_silk_PLC(silk_decoder_state *psDec, silk_decoder_control *psDecCtrl, opus_int16 frame[], opus_int lost, int arch);
 void __real_silk_CNG(silk_decoder_state *psDec, silk_decoder_control *psDecCtrl, opus_int16 frame[], opus_int length);
 opus_int __real_silk_decode_frame(silk_decoder_state *psDec, ec_dec *psRangeDec, opus_int16 pOut[], opus_int32 *pN, opus_int lostFlag, opus_int condCoding, int arch);
+void __real_silk_sum_sqr_shift(opus_int32 *energy, opus_int *shift, const opus_int16 *x, opus_int len);
 opus_int __real_silk_decoder_set_fs(silk_decoder_state *psDec, opus_int fs_kHz, opus_int32 fs_API_Hz);
 
 static void geo(const silk_decoder_state *d, int *g)
@@ -57,6 +62,12 @@ void __wrap_silk_LPC_analysis_filter(opus_int16 *out, const opus_int16 *in, cons
    if ((rec.in_core || rec.in_plc) && rec.naf < 4) { rec.af[rec.naf][0] = (int)(in - rec.ob); rec.af[rec.naf][1] = len; rec.af[rec.naf][2] = d; }
    if (rec.in_core || rec.in_plc) rec.naf++;
    __real_silk_LPC_analysis_filter(out, in, B, len, d, arch);
+}
+
+void __wrap_silk_sum_sqr_shift(opus_int32 *energy, opus_int *shift, const opus_int16 *x, opus_int len)
+{
+   __real_silk_sum_sqr_shift(energy, shift, x, len);
+   if (rec.en_on && rec.nen < 2) { rec.en[rec.en_on - 1][2 * rec.nen] = *energy; rec.en[rec.en_on - 1][2 * rec.nen + 1] = *shift; rec.nen++; }
 }
 
 void __wrap_silk_decode_core(silk_decoder_state *psDec, silk_decoder_control *psDecCtrl, opus_int16 xq[], const opus_int16 pulses[MAX_FRAME_LENGTH], int arch)
@@ -140,10 +151,10 @@ opus_int __wrap_silk_decoder_set_fs(silk_decoder_state *psDec, opus_int fs_kHz, 
    return r;
 }
 
-static void ev_new(int id, const char *what) { rec.last_dec = NULL; js_open("new"); js_int("id", id); js_str("w", what); js_close(); }
+static void ev_new(int id, const char *what) { rec.last_dec = NULL; fflush(stdout); js_open("new"); js_int("id", id); js_str("w", what); js_close(); fflush(stdout); }
 
 /* ------------------------------------------------------------------ function level */
-static silk_decoder_state g_st, g_st2;
+static silk_decoder_state g_st, g_st2, g_st3;
 
 /* twin execution against stack contents: the scratch arrays of silk_decode_core / silk_PLC_conceal are stack VLAs; the same call
    is made on a copy of the state after the stack below us has been filled with another byte pattern.  "tw" counts the output
@@ -163,7 +174,42 @@ static int state_diff(const silk_decoder_state *a, const silk_decoder_state *b)
    n += a->prev_gain_Q16 != b->prev_gain_Q16; n += a->sPLC.pitchL_Q8 != b->sPLC.pitchL_Q8; n += a->sPLC.rand_seed != b->sPLC.rand_seed;
    return n;
 }
-static void ev_twin(const char *what, int tw) { js_open("twin"); js_str("w", what); js_int("tw", tw); js_close(); }
+static void ev_twin(const char *what, int tw, int tp, const int *rs, int nrs) { js_open("twin"); js_str("w", what); js_int("tw", tw); js_int("tp", tp); js_arr_i("rs", rs, nrs); js_close(); }
+static int imax(int a, int b) { return a > b ? a : b; }
+static int imin(int a, int b) { return a < b ? a : b; }
+/* the twin also gets every state cell OUTSIDE the read set (rs: the intervals the call may read of exc_Q14 and of outBuf before
+   writing them) flipped: reading any of them changes the twin's result.  rs is logged; TLC compares it with the model's read set. */
+static void perturb_plc(silk_decoder_state *b, int *rs)
+{
+   int i, reset = b->sPLC.fs_kHz != b->fs_kHz, pnb = reset ? 2 : b->sPLC.nb_subfr, psfl = reset ? 20 : b->sPLC.subfr_length;
+   int p0 = reset ? b->frame_length << 7 : b->sPLC.pitchL_Q8, lag = ((p0 >> 7) + 1) >> 1;
+   rs[0] = (b->nb_subfr - 2) * b->subfr_length; rs[1] = b->nb_subfr * b->subfr_length - 1;
+   rs[2] = imax(0, (pnb - 1) * psfl - RAND_BUF_SIZE); rs[3] = rs[2] + RAND_BUF_SIZE - 1;
+   rs[4] = imax(0, pnb * psfl - RAND_BUF_SIZE); rs[5] = rs[4] + RAND_BUF_SIZE - 1;
+   rs[6] = b->ltp_mem_length - lag - b->LPC_order - LTP_ORDER / 2; rs[7] = b->ltp_mem_length - 1;
+   for (i = 0; i < MAX_FRAME_LENGTH; i++) if (!((i >= rs[0] && i <= rs[1]) || (i >= rs[2] && i <= rs[3]) || (i >= rs[4] && i <= rs[5]))) b->exc_Q14[i] ^= 0x15550;
+   for (i = 0; i < MAX_FRAME_LENGTH + 2 * MAX_SUB_FRAME_LENGTH; i++) if (!(i >= rs[6] && i <= rs[7])) b->outBuf[i] ^= 0x1555;
+}
+static void perturb_core(silk_decoder_state *b, const silk_decoder_control *c, int *rs)
+{
+   int i, sig = b->indices.signalType, forced = b->lossCnt && b->prevSignalType == TYPE_VOICED && sig != TYPE_VOICED, lo = MAX_FRAME_LENGTH + 2 * MAX_SUB_FRAME_LENGTH;
+   int base = b->ltp_mem_length - b->LPC_order - LTP_ORDER / 2;
+   if (sig == TYPE_VOICED) {
+      lo = base - c->pitchL[0];
+      if (b->nb_subfr == 4 && b->indices.NLSFInterpCoef_Q2 < 4) lo = imin(lo, base - c->pitchL[2] + 2 * b->subfr_length);
+   } else if (forced) lo = base - b->lagPrev;
+   rs[0] = lo; rs[1] = b->ltp_mem_length - 1;
+   for (i = 0; i < MAX_FRAME_LENGTH; i++) b->exc_Q14[i] ^= 0x15550;
+   for (i = 0; i < MAX_FRAME_LENGTH + 2 * MAX_SUB_FRAME_LENGTH; i++) if (!(i >= rs[0] && i <= rs[1])) b->outBuf[i] ^= 0x1555;
+}
+static int out_diff(const silk_decoder_state *a, const silk_decoder_state *b, int nexc)
+{
+   int i, n = 0;
+   for (i = 0; i < nexc; i++) n += a->exc_Q14[i] != b->exc_Q14[i];
+   for (i = 0; i < MAX_LPC_ORDER; i++) n += a->sLPC_Q14_buf[i] != b->sLPC_Q14_buf[i];
+   n += a->prev_gain_Q16 != b->prev_gain_Q16; n += a->sPLC.pitchL_Q8 != b->sPLC.pitchL_Q8; n += a->sPLC.rand_seed != b->sPLC.rand_seed;
+   return n;
+}
 
 static void fill_state(silk_decoder_state *d, hx_rng *r, int amp)
 {
@@ -218,16 +264,21 @@ static int fn_core(hx_rng *r, int fs, int nb, int li, int ci, int ip, int gm, in
    if (!xq || !pulses) return 9;
    for (i = 0; i < PL; i++) pulses[i] = (opus_int16)(hx_u(r, 4) ? 0 : hx_range(r, -6, 6));
    {
-      silk_decoder_control ctrl2 = ctrl; opus_int16 *xq2 = (opus_int16 *)malloc(L * sizeof *xq2); int tw = 0;
+      silk_decoder_control ctrl2 = ctrl, ctrl3 = ctrl; opus_int16 *xq2 = (opus_int16 *)malloc(L * sizeof *xq2); int tw = 0, tp = 0, rs[2];
       if (!xq2) return 9;
-      memcpy(&g_st2, d, sizeof g_st2);
+      memcpy(&g_st2, d, sizeof g_st2); memcpy(&g_st3, d, sizeof g_st3);
+      perturb_core(&g_st3, &ctrl3, rs);
       stack_fill(0x00);
       __wrap_silk_decode_core(d, &ctrl, xq, pulses, d->arch);
       stack_fill(0xA5);
       __real_silk_decode_core(&g_st2, &ctrl2, xq2, pulses, g_st2.arch);
       for (i = 0; i < L; i++) tw += xq[i] != xq2[i];
       tw += state_diff(d, &g_st2);
-      ev_twin("core", tw);
+      stack_fill(0x00);
+      __real_silk_decode_core(&g_st3, &ctrl3, xq2, pulses, g_st3.arch);
+      for (i = 0; i < L; i++) tp += xq[i] != xq2[i];
+      tp += out_diff(d, &g_st3, L);
+      ev_twin("core", tw, tp, rs, 2);
       free(xq2);
    }
    free(xq); free(pulses);
@@ -258,16 +309,29 @@ static int fn_plc(hx_rng *r, int fs, int nb, int pitchQ8, int run, int shape)
    }
    for (k = 0; k < run; k++) {
       if (k == 0 || k == run - 1) {
-         silk_decoder_control ctrl2 = ctrl; opus_int16 *f2 = (opus_int16 *)malloc(L * sizeof *f2); int tw = 0;
+         silk_decoder_control ctrl2 = ctrl, ctrl3 = ctrl; opus_int16 *f2 = (opus_int16 *)malloc(2 * L * sizeof *f2), *f3 = f2 + L; int tw = 0, tp = 0, rs[8];
+         opus_int32 en1[4];
          if (!f2) return 9;
-         memcpy(&g_st2, d, sizeof g_st2); memcpy(f2, frame, L * sizeof *f2);
+         memcpy(&g_st2, d, sizeof g_st2); memcpy(&g_st3, d, sizeof g_st3); memcpy(f2, frame, L * sizeof *f2); memcpy(f3, frame, L * sizeof *f3);
+         perturb_plc(&g_st3, rs);
+         memset(rec.en, 0, sizeof rec.en);
          stack_fill(0xA5);
+         rec.en_on = 2; rec.nen = 0;
          __real_silk_PLC(&g_st2, &ctrl2, f2, 1, g_st2.arch);
          stack_fill(0x00);
+         rec.en_on = 1; rec.nen = 0;
          __wrap_silk_PLC(d, &ctrl, frame, 1, d->arch);
+         rec.en_on = 0;
          for (i = 0; i < L; i++) tw += frame[i] != f2[i];
+         for (i = 0; i < 4; i++) { tw += rec.en[0][i] != rec.en[1][i]; en1[i] = rec.en[0][i]; }
          tw += state_diff(d, &g_st2);
-         ev_twin("plc", tw);
+         rec.en_on = 2; rec.nen = 0;
+         __real_silk_PLC(&g_st3, &ctrl3, f3, 1, g_st3.arch);
+         rec.en_on = 0;
+         for (i = 0; i < L; i++) tp += frame[i] != f3[i];
+         for (i = 0; i < 4; i++) tp += en1[i] != rec.en[1][i];
+         tp += out_diff(d, &g_st3, 0);
+         ev_twin("plc", tw, tp, rs, 8);
          free(f2);
       } else
       __wrap_silk_PLC(d, &ctrl, frame, 1, d->arch);
@@ -280,6 +344,72 @@ static int fn_plc(hx_rng *r, int fs, int nb, int pitchQ8, int run, int shape)
    return 0;
 }
 
+/* crafted bit-streams: side information and excitation written with the real range encoder (silk_encode_indices /
+   silk_encode_pulses, as harness/silkidx.c does), decoded by the real silk_decode_frame: up to three voiced frames of one packet
+   whose lagIndex starts at li and moves by dl per frame (delta coding: beyond the absolute range), contour ci; then two concealed
+   frames; then an unvoiced frame (the forced voiced->unvoiced transition with the concealed lag) */
+static silk_encoder_state g_enc;
+static void enc_setup(silk_encoder_state *s, int fs, int nb)
+{
+   memset(s, 0, sizeof *s);
+   s->fs_kHz = fs; s->nb_subfr = nb; s->subfr_length = 5 * fs; s->frame_length = nb * s->subfr_length;
+   s->predictLPCOrder = fs == 16 ? 16 : 10;
+   s->psNLSF_CB = fs == 16 ? &silk_NLSF_CB_WB : &silk_NLSF_CB_NB_MB;
+   s->pitch_lag_low_bits_iCDF = fs == 16 ? silk_uniform8_iCDF : fs == 12 ? silk_uniform6_iCDF : silk_uniform4_iCDF;
+   if (fs == 8) s->pitch_contour_iCDF = nb == 4 ? silk_pitch_contour_NB_iCDF : silk_pitch_contour_10_ms_NB_iCDF;
+   else s->pitch_contour_iCDF = nb == 4 ? silk_pitch_contour_iCDF : silk_pitch_contour_10_ms_iCDF;
+}
+static void rand_indices(SideInfoIndices *ix, hx_rng *r, int fs, int nb, int sig, int li, int ci, int ip, int cond)
+{
+   int k, order = fs == 16 ? 16 : 10;
+   memset(ix, 0, sizeof *ix);
+   ix->signalType = (opus_int8)sig; ix->quantOffsetType = (opus_int8)hx_u(r, 2);
+   ix->GainsIndices[0] = (opus_int8)(cond == CODE_CONDITIONALLY ? hx_range(r, 2, 8) : hx_range(r, 18, 50));
+   for (k = 1; k < nb; k++) ix->GainsIndices[k] = (opus_int8)hx_range(r, 1, 9);
+   ix->NLSFIndices[0] = (opus_int8)hx_u(r, 32);
+   for (k = 1; k <= order; k++) ix->NLSFIndices[k] = (opus_int8)hx_range(r, -3, 3);
+   ix->NLSFInterpCoef_Q2 = (opus_int8)(nb == 4 && ip ? hx_u(r, 4) : 4);
+   ix->lagIndex = (opus_int16)li; ix->contourIndex = (opus_int8)ci;
+   ix->PERIndex = (opus_int8)hx_u(r, 3);
+   for (k = 0; k < nb; k++) ix->LTPIndex[k] = (opus_int8)hx_u(r, 8 << ix->PERIndex);
+   ix->LTP_scaleIndex = (opus_int8)(cond == CODE_INDEPENDENTLY ? hx_u(r, 3) : 0);
+   ix->Seed = (opus_int8)hx_u(r, 4);
+}
+static int fn_bits(hx_rng *r, int fs, int nb, int li, int ci, int ip, int dl, int nfr)
+{
+   static unsigned char buf[1275]; static opus_int8 pul8[MAX_FRAME_LENGTH + SHELL_CODEC_FRAME_LENGTH];
+   silk_decoder_state *d = &g_st; ec_enc enc; ec_dec dec; int f, i, L, pk; opus_int16 *out; opus_int32 n;
+   start_state(d, fs, nb);
+   L = d->frame_length;
+   out = (opus_int16 *)malloc(L * sizeof *out); if (!out) return 9;
+   for (pk = 0; pk < 2; pk++) {
+      int frames = pk == 0 ? nfr : 1;
+      enc_setup(&g_enc, fs, nb);
+      memset(buf, 0, sizeof buf);
+      ec_enc_init(&enc, buf, sizeof buf);
+      for (f = 0; f < frames; f++) {
+         int cond = f == 0 ? CODE_INDEPENDENTLY : CODE_CONDITIONALLY, sig = pk == 0 ? TYPE_VOICED : TYPE_UNVOICED;
+         rand_indices(&g_enc.indices, r, fs, nb, sig, li + f * dl, ci, ip, cond);
+         for (i = 0; i < L + SHELL_CODEC_FRAME_LENGTH; i++) pul8[i] = (opus_int8)(i < L && !hx_u(r, 3) ? hx_range(r, -5, 5) : 0);
+         silk_encode_indices(&g_enc, &enc, f, 0, cond);
+         silk_encode_pulses(&enc, sig, g_enc.indices.quantOffsetType, pul8, L);
+      }
+      ec_enc_done(&enc);
+      if (ec_get_error(&enc)) { free(out); return 8; }
+      ec_dec_init(&dec, buf, sizeof buf);
+      memset(d->VAD_flags, 0, sizeof d->VAD_flags); memset(d->LBRR_flags, 0, sizeof d->LBRR_flags);
+      d->nFramesDecoded = 0; d->nFramesPerPacket = frames;
+      for (f = 0; f < frames; f++) {
+         d->VAD_flags[f] = 1;
+         __wrap_silk_decode_frame(d, &dec, out, &n, FLAG_DECODE_NORMAL, f == 0 ? CODE_INDEPENDENTLY : CODE_CONDITIONALLY, d->arch);
+         d->nFramesDecoded++;
+      }
+      if (pk == 0) for (f = 0; f < 2; f++) { d->nFramesDecoded = 0; __wrap_silk_decode_frame(d, &dec, out, &n, FLAG_PACKET_LOST, CODE_INDEPENDENTLY, d->arch); }
+   }
+   free(out);
+   return 0;
+}
+
 static int run_fn(unsigned long seed)
 {
    static char line[512]; hx_rng r; int id = 0, a[10], rc = 0;
@@ -289,6 +419,8 @@ static int run_fn(unsigned long seed)
          ev_new(++id, "fn"); rc = fn_core(&r, a[0], a[1], a[2], a[3], a[4], a[5], a[6], a[7], a[8], a[9]);
       } else if (line[0] == 'P' && sscanf(line + 1, "%d %d %d %d %d", a, a + 1, a + 2, a + 3, a + 4) == 5) {
          ev_new(++id, "fn"); rc = fn_plc(&r, a[0], a[1], a[2], a[3], a[4]);
+      } else if (line[0] == 'B' && sscanf(line + 1, "%d %d %d %d %d %d %d", a, a + 1, a + 2, a + 3, a + 4, a + 5, a + 6) == 7) {
+         ev_new(++id, "bits"); rc = fn_bits(&r, a[0], a[1], a[2], a[3], a[4], a[5], a[6]);
       } else if (line[0] == 'F' && sscanf(line + 1, "%d %d %d %d", a, a + 1, a + 2, a + 3) == 4) {
          ev_new(++id, "fn"); start_state(&g_st, a[0], a[1]); fill_state(&g_st, &r, 500);
          g_st.nb_subfr = a[3]; __wrap_silk_decoder_set_fs(&g_st, a[2], 48000);
@@ -366,10 +498,46 @@ static int run_stream(int id, int bw, int ch, int ms, int kind, int fec, int sw,
    return 0;
 }
 
+/* ------------------------------------------------------------------ the table words module SilkParams reads (IOEnv.SILKTAB; the same JSON
+   line as "hx_silk tables" of harness/silk.c: the contour code books are what SilkDecCore_mc needs) */
+static void p_u8(const char *key, const opus_uint8 *a, int n) { int i; printf("\"%s\":[", key); for (i = 0; i < n; i++) printf(i ? ",%d" : "%d", a[i]); printf("]"); }
+static void p_i16(const char *key, const opus_int16 *a, int n) { int i; printf("\"%s\":[", key); for (i = 0; i < n; i++) printf(i ? ",%d" : "%d", a[i]); printf("]"); }
+static void p_i8_2d(const char *key, const opus_int8 *a, int rows, int cols)
+{
+   int r, c; printf("\"%s\":[", key);
+   for (r = 0; r < rows; r++) { printf(r ? ",[" : "["); for (c = 0; c < cols; c++) printf(c ? ",%d" : "%d", a[r * cols + c]); printf("]"); }
+   printf("]");
+}
+static void p_cb(const silk_NLSF_CB_struct *cb)
+{
+   int nv = cb->nVectors, o = cb->order;
+   printf("{\"nv\":%d,\"order\":%d,\"qstep\":%d,\"invq\":%d,", nv, o, cb->quantStepSize_Q16, cb->invQuantStepSize_Q6);
+   p_u8("cb1", cb->CB1_NLSF_Q8, nv * o); printf(","); p_i16("w", cb->CB1_Wght_Q9, nv * o); printf(",");
+   p_u8("icdf1", cb->CB1_iCDF, 2 * nv); printf(","); p_u8("pred", cb->pred_Q8, 2 * (o - 1)); printf(",");
+   p_u8("sel", cb->ec_sel, nv * o / 2); printf(","); p_u8("ecicdf", cb->ec_iCDF, 8 * (2 * NLSF_QUANT_MAX_AMPLITUDE + 1)); printf(",");
+   p_i16("dmin", cb->deltaMin_Q15, o + 1); printf("}");
+}
+static int cmd_tables(void)
+{
+   printf("{\"k\":\"tables\",");
+   printf("\"gain\":{\"nlev\":%d,\"mindb\":%d,\"maxdb\":%d,\"mind\":%d,\"maxd\":%d},", N_LEVELS_QGAIN, MIN_QGAIN_DB, MAX_QGAIN_DB, MIN_DELTA_GAIN_QUANT, MAX_DELTA_GAIN_QUANT);
+   printf("\"lag\":{\"minms\":%d,\"maxms\":%d,", PE_MIN_LAG_MS, PE_MAX_LAG_MS);
+   p_i8_2d("s2", &silk_CB_lags_stage2[0][0], PE_MAX_NB_SUBFR, PE_NB_CBKS_STAGE2_EXT); printf(",");
+   p_i8_2d("s2_10", &silk_CB_lags_stage2_10_ms[0][0], PE_MAX_NB_SUBFR >> 1, PE_NB_CBKS_STAGE2_10MS); printf(",");
+   p_i8_2d("s3", &silk_CB_lags_stage3[0][0], PE_MAX_NB_SUBFR, PE_NB_CBKS_STAGE3_MAX); printf(",");
+   p_i8_2d("s3_10", &silk_CB_lags_stage3_10_ms[0][0], PE_MAX_NB_SUBFR >> 1, PE_NB_CBKS_STAGE3_10MS);
+   printf("},\"cb\":["); p_cb(&silk_NLSF_CB_NB_MB); printf(","); p_cb(&silk_NLSF_CB_WB);
+   printf("],\"nlsf\":{\"maxamp\":%d,\"maxampext\":%d,\"adjq10\":%d},", NLSF_QUANT_MAX_AMPLITUDE, NLSF_QUANT_MAX_AMPLITUDE_EXT, (int)SILK_FIX_CONST(NLSF_QUANT_LEVEL_ADJ, 10));
+   p_i16("cos", silk_LSFCosTab_FIX_Q12, LSF_COS_TAB_SZ_FIX + 1);
+   printf("}\n");
+   return 0;
+}
+
 int main(int argc, char **argv)
 {
    static char line[1 << 16];
    hx_watchdog_init(); hx_arm(1500);
+   if (argc >= 2 && !strcmp(argv[1], "tables")) return cmd_tables();
    if (argc >= 3 && !strcmp(argv[1], "fn")) return run_fn(strtoul(argv[2], NULL, 10));
    if (argc >= 2 && !strcmp(argv[1], "situ")) {
       while (fgets(line, sizeof line, stdin)) {
